@@ -19,8 +19,10 @@ sequence) and outs' every output (value, scriptPubKey); version/locktime are the
 Both: wtxid = raw = hex(SHA256d(buffer[: len(buffer) - len(leftover)])) -- consumed bytes are delimited by length.
 [FIELD-COVERAGE] every key of the dict literal returned by txin_deser/txout_deser is read by the re-serialisation.
 [OWN] no content-search method (split/partition/find/index/replace/strip...) is applied to a byte buffer in any
-deserialiser. [THREAD] block_deser feeds tx_deser the running remainder, collects its result and checks the count;
-mine_block takes txid/wtxid from tx_deser's result.
+deserialiser. [THREAD] block_deser feeds tx_deser the running remainder, collects its result and checks the count.
+[SCENARIO] mine_block against a scripted node (RPC answers of the documented shapes, mempools of 0..3 transactions): the block
+is [coinbase] + mempool in order, every header commits to merkle_root of those transactions' tx_deser(..)['txid'], the witness
+tree is 0^32 + their wtxids, the coinbase commits to SHA256d(root || 0^32) exactly when some txid differs from its wtxid.
 """
 NOT_DECIDED = "SHA-256 itself; that tx()'s non-witness branch is consensus serialisation beyond C05's layout obligations"
 ASSUMPTIONS = ["arguments have their annotated types", "assert statements are live (no python -O)"]
